@@ -6,6 +6,25 @@ from ._line import _line_to_line_segment
 from ._rectangle import line_segment_to_rectangle
 
 
+@numba.njit(cache=True)
+def _point_to_degenerate_triangle(point, triangle_points):
+    best_dist = np.inf
+    best_point = triangle_points[0]
+    for i, j in ((0, 1), (0, 2), (1, 2)):
+        start = triangle_points[i]
+        direction = triangle_points[j] - start
+        length_sq = np.dot(direction, direction)
+        t = 0.0
+        if length_sq > 0.0:
+            t = min(max(np.dot(point - start, direction) / length_sq, 0.0), 1.0)
+        candidate = start + t * direction
+        dist = np.linalg.norm(point - candidate)
+        if dist < best_dist:
+            best_dist = dist
+            best_point = candidate
+    return best_dist, best_point
+
+
 @numba.njit(numba.types.Tuple(
     (numba.float64, numba.float64[:]))(numba.float64[:], numba.float64[:, :]),
     cache=True)
@@ -34,6 +53,11 @@ def point_to_triangle(point, triangle_points):
     """
     ab = triangle_points[1] - triangle_points[0]
     ac = triangle_points[2] - triangle_points[0]
+
+    normal = np.cross(ab, ac)
+    if np.dot(normal, normal) == 0.0:
+        # Degenerate triangle (zero area): closest point on its edges.
+        return _point_to_degenerate_triangle(point, triangle_points)
 
     # Check if point in vertex region outside A
     ap = point - triangle_points[0]
@@ -81,7 +105,10 @@ def point_to_triangle(point, triangle_points):
         return np.linalg.norm(point - closest_point), closest_point
 
     # Point inside face region
-    denom = 1.0 / (va + vb + vc)
+    area_term = va + vb + vc
+    if area_term <= 0.0:
+        return _point_to_degenerate_triangle(point, triangle_points)
+    denom = 1.0 / area_term
     v = vb * denom
     w = vc * denom
     closest_point = triangle_points[0] + ab * v + ac * w
